@@ -221,7 +221,7 @@ pub fn exec_spec(ctx: &mut Ctx, spec: &RunSpec, idx: u64) -> RunResult {
     let clean = ctx.clean_ns(&fx);
     let image = Arc::new(built.image);
     let limits = Limits::for_input(image.len().max(fx.bytes.len()), crate::c08::cpu_budget(clean) * ctx.cpu_scale);
-    let ex = execute(image.clone(), spec.entry, spec.delivery.clone(), &spec.ops, limits, &ExecOpts { capture: false, stop_on_panic: true, probes: &built.probes });
+    let ex = execute(image.clone(), spec.entry, spec.delivery.clone(), &spec.ops, limits, &ExecOpts { capture: false, stop_on_panic: true, probes: &built.probes, record_kinds: false });
     let mut violations = Vec::new();
     if let Outcome::Panic(p) = &ex.open {
         violations.push(Violation {
